@@ -72,6 +72,9 @@ impl SubCheck for FromSecs {
         let z = call("Utc.timestamp_opt", || Utc.timestamp_opt(s, ns))?;
         let fo = FixedOffset::east_opt(off).ok_or("harness: offset")?;
         let f = call("FixedOffset.timestamp_opt", || fo.timestamp_opt(s, ns))?;
+        #[allow(deprecated)]
+        let nv = call("NaiveDateTime::from_timestamp_opt", || chrono::NaiveDateTime::from_timestamp_opt(s, ns))?;
+        ensure_eq!(nv, got.map(|d| d.naive_utc()), "NaiveDateTime::from_timestamp_opt({s}, {ns}) vs DateTime::from_timestamp");
         obs.label(if valid { "accepted" } else { "refused" });
         match got {
             None => {
@@ -155,6 +158,13 @@ impl SubCheck for FromUnit {
                 Some(call("FixedOffset.timestamp_nanos", || fo.timestamp_nanos(v))?),
             ),
         };
+        #[allow(deprecated)]
+        let nv = call("NaiveDateTime::from_timestamp_<unit>", || match u {
+            0 => chrono::NaiveDateTime::from_timestamp_millis(v),
+            1 => chrono::NaiveDateTime::from_timestamp_micros(v),
+            _ => chrono::NaiveDateTime::from_timestamp_nanos(v),
+        })?;
+        ensure_eq!(nv, got.map(|d| d.naive_utc()), "NaiveDateTime::from_timestamp_{name}({v}) vs DateTime::from_timestamp_{name}");
         obs.label(if valid { "accepted" } else { "refused" });
         match got {
             None => {
@@ -220,6 +230,16 @@ impl SubCheck for Reverse {
         ensure_eq!(dt.timestamp_subsec_millis() as i128, t.rem_euclid(NS) / 1_000_000, "timestamp_subsec_millis()");
         let a = n.and_utc();
         ensure_eq!(a, dt, "NaiveDateTime::and_utc");
+        #[allow(deprecated)]
+        {
+            ensure_eq!(n.timestamp() as i128, t.div_euclid(NS), "NaiveDateTime::timestamp()");
+            ensure_eq!(n.timestamp_millis() as i128, t.div_euclid(1_000_000), "NaiveDateTime::timestamp_millis()");
+            ensure_eq!(n.timestamp_micros() as i128, t.div_euclid(1000), "NaiveDateTime::timestamp_micros()");
+            ensure_eq!(n.timestamp_nanos_opt(), i64::try_from(t).ok(), "NaiveDateTime::timestamp_nanos_opt()");
+            ensure_eq!(n.timestamp_subsec_nanos() as i128, t.rem_euclid(NS), "NaiveDateTime::timestamp_subsec_nanos()");
+            ensure_eq!(n.timestamp_subsec_micros() as i128, t.rem_euclid(NS) / 1000, "NaiveDateTime::timestamp_subsec_micros()");
+            ensure_eq!(n.timestamp_subsec_millis() as i128, t.rem_euclid(NS) / 1_000_000, "NaiveDateTime::timestamp_subsec_millis()");
+        }
         ensure_eq!(a.timestamp(), dt.timestamp(), "and_utc().timestamp()");
         let back = call("from_timestamp", || DateTime::from_timestamp(dt.timestamp(), dt.timestamp_subsec_nanos()))?;
         ensure_eq!(back, Some(dt), "from_timestamp(timestamp(), subsec_nanos())");
